@@ -842,7 +842,13 @@ func (e *Extractor) extractInner(re *syntax.Regexp, depth int) *Seq {
 		return NewSeq(allLits...)
 
 	case syntax.OpCharClass:
-		return e.expandCharClass(re)
+		// Inner literals are never "complete" (see OpLiteral above): for [ab]cd
+		// the expansion {"a","b"} holds parts of matches, not matches.
+		seq := e.expandCharClass(re)
+		for i := range seq.literals {
+			seq.literals[i].Complete = false
+		}
+		return seq
 
 	case syntax.OpCapture:
 		if len(re.Sub) == 0 {
